@@ -24,7 +24,7 @@ def correspondence(ctx):
     acc = (lambda p: p['style'] in styles) if styles else None
     r = FL.correspondence(ctx, PID, kw, 60, 1500, accept=acc)
     # the plugin layer: the action table comes from the settings (custom commands and patterns, changed at run time)
-    return PS.merge_into(r, ctx, PID.lower() + 'p', 20, 500, extra=[PS.atc_history(ctx.rng) for _ in range(ctx.n(15, 300))])
+    return PS.merge_into(r, ctx, PID.lower() + 'p', 20, 500, extra=[PS.atc_history(ctx.rng) for _ in range(ctx.n(30, 400))])
 
 
 def oracle(ctx, budget=1, replay=None, hints=None):
